@@ -200,4 +200,26 @@ def cdsPayoff (R s r T dfT : Rat) (tau : Option Rat) (dfTau dfMin : Rat) : Rat :
   let fixedLeg := s * (1 - dfMin) / r
   defaultLeg / dfT - fixedLeg / dfT
 
+/-! ### the legs and the payoff of one path over an arbitrary field
+
+The same formulas as `defaultLeg` / `fixedLeg` / `presentValue` / `cdsPayoff` above, written for any carrier so that
+Proofs/Lemmas/C19Legs.lean can instantiate them at ℝ with the real exponential (cflevymodel.py:58-65,
+cflevycopula.py:73-80, payoff.py:379-390).  At ℚ they are the definitions above (`defaultLeg_eq_F` … in Proofs/C19.lean). -/
+section generic
+variable {α : Type} [Add α] [Sub α] [Mul α] [Div α] [OfNat α 0] [OfNat α 1]
+
+def defaultLegF (E theta r R : α) : α := (1 - R) * (1 - E) * theta / (r + theta)
+
+def fixedLegF (E theta r : α) : α := (1 - E) / (r + theta)
+
+def presentValueF (E theta r R s : α) : α := defaultLegF E theta r R - s * fixedLegF E theta r
+
+/-- `CDS.evaluate(t)` for a default at `t ≤ T`: both legs read the discount factor at `t` (`dfTau = df(t) = df(min(T,t))`) -/
+def cdsDefaultedF (R s r dfT dfTau : α) : α := (1 - R) * dfTau / dfT - s * (1 - dfTau) / r / dfT
+
+/-- `CDS.evaluate(t)` for `t > T` or `np.inf`: no protection payment, the premium runs until `T` (`df(min(T,t)) = df(T)`) -/
+def cdsSurvivedF (s r dfT : α) : α := 0 / dfT - s * (1 - dfT) / r / dfT
+
+end generic
+
 end Rpylib.Credit
